@@ -154,7 +154,15 @@ def diagnostic_obligations(prop="C20"):
         r.witness = {"print": ast.unparse(prints[0])}
         r.detail = "brackets in a rejected file's echoed line or path are parsed as console markup"
         r.replay = c20.markup_cases()
-    return [r]
+    # ... and it is printed whole: nothing tells rich to cut what does not fit the line (the path of the rejected file stands at the end of the first line)
+    cutting = {k.arg: ast.unparse(k.value) for k in prints[0].keywords if (k.arg == "overflow" and ast.unparse(k.value).strip("'\"") in ("ellipsis", "crop"))
+               or (k.arg == "no_wrap" and isinstance(k.value, ast.Constant) and k.value.value is True) or k.arg in ("crop", "width", "height") and not (isinstance(k.value, ast.Constant) and k.value.value in (None, False))}
+    r2 = OR(id=f"{prop}.S.console.warn.message_is_printed_whole", status=REFUTED if cutting else PROVED, kind="S", role="pre", backend="ast", target="ford.console.warn",
+            desc="console.print is given no option that cuts a line at the console width (overflow='ellipsis' / 'crop', no_wrap, crop, width)")
+    if cutting:
+        r2.witness = {"print": ast.unparse(prints[0]), "options": cutting}
+        r2.detail = "a diagnostic longer than the console width (80 columns when the output is not a terminal) loses its tail: the name of a rejected file that lies a few directories deep"
+    return [r, r2]
 
 
 def preprocessor_exit_obligations(prop="C20"):
